@@ -60,6 +60,9 @@ Fixpoint rsa_of_sx (fuel : nat) (x : sx) : option rsa :=
       | SxL [SxZ c; SxZ p; SxZ t; u; SxZ n; a; b; d] =>
           let succ := match u with SxNone => None | _ => rsa_of_sx f u end in
           Some (mk_rsa (Z.to_nat c) p t succ n false (tpair_of_sx a) (tpair_of_sx b) (tpair_of_sx d))
+      | SxL [SxZ c; SxZ p; SxZ t; u; SxZ n; a; b; d; SxZ k] =>       (* with the "cookie armed" flag of the entry *)
+          let succ := match u with SxNone => None | _ => rsa_of_sx f u end in
+          Some (mk_rsa (Z.to_nat c) p t succ n (Z.eqb k 1) (tpair_of_sx a) (tpair_of_sx b) (tpair_of_sx d))
       | _ => None
       end
   end.
